@@ -249,6 +249,13 @@ def run_property(pid: str, tier: str, seed: int) -> int:
             o.name = f"{pid}/{o.name}"
             obligations.append(o)
     t_sym = time.time() - t_sym
+    # every callee contract that a verified function of this property relied on and that is not itself verified is an
+    # assumption of this property, whatever properties its declaration names
+    for rep in fn_reports:
+        for q in rep.callees:
+            cc = engine.REGISTRY.get(q)
+            if cc is not None and not cc.verify and cc not in assumed:
+                assumed.append(cc)
     lemma_obs = []
     for lm in LEMMAS.values():
         if pid in lm["props"]:
@@ -360,14 +367,17 @@ def run_property(pid: str, tier: str, seed: int) -> int:
     # bounded stand-ins
     bounded_out = []
     bounded_failures = []
+    bounded_crashes = []
     for b in BOUNDED.values():
         if pid in b["props"]:
             try:
                 res = b["fn"](tier, seed)
             except Exception as e:  # noqa: BLE001
+                # the stand-in drives the real code: a crash there may be the consequence of a change that the
+                # contracts report as a violation -- the deductive verdict is not thrown away for it (see the end)
                 traceback.print_exc()
-                print(f"CHECKER-ERROR: bounded stand-in {b['name']} crashed: {e!r}")
-                return 3
+                bounded_crashes.append(f"bounded stand-in {b['name']} crashed: {e!r}")
+                continue
             if res.get("checker_failures"):
                 print(f"CHECKER-ERROR: an assumed contract is contradicted by the real library in {b['name']}: "
                       f"{json.dumps(res['checker_failures'][:3], default=str)}")
@@ -503,6 +513,11 @@ def run_property(pid: str, tier: str, seed: int) -> int:
     print(f"{pid}: {n_dis}/{n_ob} obligations discharged ({len(cons)} functions, "
           f"{len(lemma_obs)} lemma queries, {struct_total} structural), bounded stand-ins {len(bounded_out)}, "
           f"{wall:.1f}s")
+    if bounded_crashes:
+        for line in bounded_crashes:
+            print(("NOTE: " if violations else "CHECKER-ERROR: ") + line)
+        if not violations:
+            return 3
     if not violations:
         return 0
     for name, verdict, replay, reproduced in violations:
